@@ -545,8 +545,8 @@ const SUMS: &[Op] = &[Op::sum_v, Op::sum_r, Op::sum_v_nh, Op::sum_r_nh, Op::sum_
 const PRODUCTS: &[Op] = &[Op::product_v, Op::product_r, Op::product_v_nh, Op::product_r_nh, Op::product_v_f];
 const C02_UN: &[Op] = &[Op::inv_ring, Op::mul_alias];
 const C03_UN: &[Op] = &[Op::div_alias, Op::rem_alias];
-/// widths beyond the edge grid: 19 limbs (an odd limb count above 16) and 65 limbs (beyond the largest alias, U4096)
-const W_BIG: &[usize] = &[1216, 4160];
+/// widths beyond the edge grid: 19 limbs (an odd limb count above 16), exactly 64 limbs (U4096: one bit per limb fills a word) and 65 limbs (beyond the largest alias)
+const W_BIG: &[usize] = &[1216, 4096, 4160];
 const C02_BIN: &[Op] = &[
     Op::overflowing_mul, Op::checked_mul, Op::saturating_mul, Op::wrapping_mul, Op::mul_vv, Op::mul_vr, Op::mul_rv, Op::mul_rr, Op::mul_assign_v,
     Op::mul_assign_r,
@@ -665,6 +665,15 @@ fn c02(r: &Runner) {
         pairs(r, &format!("({d})^2"), bits, &u, &u, C02_BIN);
         unary(r, &d, bits, &u, C02_UN);
         related_pairs(r, bits, C02_BIN);
+    }
+    // half-word alphabet: limbs = two 32-bit halves from {0,1,2,2^31,2^32-2,2^32-1}
+    if !SWEEP {
+        let h = h36();
+        let u64s: Vec<Limbs> = h.iter().map(|x| vec![*x]).collect();
+        pairs(r, "(H36)^2 at 64 bits", 64, &u64s, &u64s, C02_BIN);
+        let hs: Vec<u64> = h.iter().copied().step_by(if r.is_thorough() { 1 } else { 2 }).collect();
+        let u128s: Vec<Limbs> = hs.iter().flat_map(|a| hs.iter().map(move |b| vec![*a, *b])).collect();
+        pairs(r, &format!("(H36 limbs, {} values)^2 at 128 bits", u128s.len()), 128, &u128s, &u128s, &[Op::overflowing_mul, Op::mul_rr]);
     }
     for &bits in big_widths() {
         let (u, d) = pick(bits, if r.is_thorough() { 300 } else { 120 }, &[]);
@@ -789,6 +798,17 @@ fn c03(r: &Runner) {
         let em = exact_multiples(bits, ORDINARY_DIVISORS);
         r.universe(&format!("exact multiples n = [solved, {{0,1,g1,g2}}..] of {} ordinary one-limb divisors, +-1", ORDINARY_DIVISORS.len()), bits, em.len(), |i, l| {
             let args = [vu(&em[i].0), vu(&em[i].1)];
+            l.states(1);
+            for &op in C03_CORE {
+                exec(l, bits, op, &args);
+            }
+        });
+    }
+    // n = d * 2^(32 j) - 1, d * 2^(32 j), ... for ordinary one-limb divisors (incl. 32-bit divisors with the top bit set)
+    for bits in if SWEEP { vec![] } else { vec![64usize, 128, 129, 192, 256, 257, 320] } {
+        let sm = shifted_multiples(bits, ORDINARY_DIVISORS);
+        r.universe(&format!("n = d*2^(32j) + delta for {} ordinary one-limb divisors", ORDINARY_DIVISORS.len()), bits, sm.len(), |i, l| {
+            let args = [vu(&sm[i].0), vu(&sm[i].1)];
             l.states(1);
             for &op in C03_CORE {
                 exec(l, bits, op, &args);
@@ -1187,6 +1207,25 @@ fn c13(r: &Runner) {
                 k += 1;
                 if p >= m {
                     break;
+                }
+            }
+        }
+        // roots R just below 2^64 / degree (the Newton numerator (d-1) R + v / R^(d-1) ~ d R then just fits one limb): R^d + delta
+        if bits >= 128 {
+            for d in 2usize..=(bits / 58).min(40) {
+                let top = (BigUint::from(u64::MAX) / BigUint::from(d as u64)).iter_u64_digits().next().unwrap_or(0);
+                for rt in [top, top - 1, top - 2, top / 10 * 9, top / 4 * 3, 2_000_000_000_000_000_000u64.min(top)] {
+                    let p = BigUint::from(rt).pow(d as u32);
+                    for delta in [-1i32, 0, 1] {
+                        let v = if delta < 0 { &p - 1u32 } else { &p + delta as u32 };
+                        if v < m {
+                            for dd in [d - 1, d, d + 1] {
+                                if dd >= 1 {
+                                    rootc.push([u(&v, bits), V::n(dd)]);
+                                }
+                            }
+                        }
+                    }
                 }
             }
         }
